@@ -683,13 +683,15 @@ class FedSim(object):
                         kw["userid"] = p.get("userid", "user0")
                     if p.get("session_nooa") is not None:
                         kw["session_not_on_or_after"] = wire.fmt_ts(idp_now + p["session_nooa"])
+                    if p.get("enc_cert") is not None:
+                        kw["encrypt_cert_assertion"] = fed.cert_pem(p["enc_cert"])     # supplied with the request
                     if p.get("pefim"):
                         kw["pefim"] = True
                     if p.get("advice"):
                         kw["encrypted_advice_attributes"] = True
                     resp = srv.create_authn_response(
                         identity, authn=authn, sign_response=sign_r, sign_assertion=sign_a,
-                        encrypt_assertion=enc,
+                        encrypt_assertion=(None if p.get("encrypt", False) is None else enc),
                         encrypt_assertion_self_contained=bool(p.get("self_contained", True)),
                         sign_alg=p.get("sigalg"), digest_alg=p.get("digalg"),
                         release_policy=pol, **dict(ra, **kw))
